@@ -89,4 +89,47 @@ theorem src_iter_integral (es : List PEv) (tpb : Int) (k : Nat) :
 example : (Src.MidiFile.iter ([⟨10, none, false⟩, ⟨0, some 250000, true⟩, ⟨4, none, false⟩].map PEv.toMsg) 480 microT2S).map
     (fun out => out.map (·.time)) = .ok [5000000, 0, 1000000] := by decide +kernel
 
+/-! ### `MidiFile.length` -/
+
+theorem foldl_time_map (l : List TMsg) (a : Int) :
+    List.foldl (fun acc msg => acc + msg.time) a l = List.foldl (· + ·) a (l.map (·.time)) := by
+  induction l generalizing a with
+  | nil => rfl
+  | cons x r ih => simp only [List.foldl_cons, List.map_cons]; exact ih _
+
+theorem foldl_cast (l : List Nat) (a : Nat) :
+    List.foldl (· + ·) (a : Int) (l.map (fun (t : Nat) => (t : Int))) = ((List.foldl (· + ·) a l : Nat) : Int) := by
+  induction l generalizing a with
+  | nil => rfl
+  | cons x r ih => simp only [List.foldl_cons, List.map_cons]; rw [← ih]; first | rfl | (congr 1; omega) | (congr 1)
+
+/-- **`MidiFile.length`** of the source (a property: the type-2 refusal comes first, then the file's own translated
+    `__iter__` is run to its end and the times are added from 0), with the float arithmetic of `tick2second` replaced by the
+    model's exact unit: the model's `lengthFile` -/
+theorem src_length (ty : Nat) (es : List PEv) (tpb : Int) :
+    Src.MidiFile.length (ty : Int) (es.map PEv.toMsg) tpb microT2S = (lengthFile ty es).map (fun (n : Nat) => (n : Int)) := by
+  unfold Src.MidiFile.length lengthFile
+  by_cases h : ty = 2
+  · subst h; rfl
+  · have h' : ¬ ((ty : Int) = 2) := by omega
+    simp only [beq_iff_eq, h, h', if_false, bind, Except.bind, pure, Except.pure, src_iter, Except.map]
+    rw [foldl_time_map, outOf_times]
+    have := foldl_cast (iterMicro defaultTempo es) 0
+    simp only [Int.natCast_zero] at this
+    rw [lengthMicro]
+    exact congrArg Except.ok this
+
+/-- C13 (length) about the translated property: refused with ValueError for a type-2 file, otherwise the integral of the
+    tempo map over the whole file -/
+theorem src_length_integral (ty : Nat) (es : List PEv) (tpb : Int) (h : ty ≠ 2) :
+    Src.MidiFile.length (ty : Int) (es.map PEv.toMsg) tpb microT2S =
+      .ok ((integral defaultTempo (absTicks 0 es) 0 (totalDelta es) : Nat) : Int) ∧
+    Src.MidiFile.length 2 (es.map PEv.toMsg) tpb microT2S = .error .ValueError := by
+  constructor
+  · rw [src_length, lengthFile, if_neg h, C13_length]; rfl
+  · exact src_length 2 es tpb
+
+example : Src.MidiFile.length 1 ([⟨10, none, false⟩, ⟨0, some 250000, true⟩, ⟨4, none, false⟩].map PEv.toMsg) 480 microT2S = .ok 6000000 := by
+  decide +kernel
+
 end Mido
